@@ -287,7 +287,7 @@ def run(ctx):
 
     # frame of the modules under contract (no state kept between calls, arguments left alone): same analysis as C19
     from props import C19 as _C19
-    ctx.guard(_C19.frame_obligations, ctx, py, "C14", {'inertial_sensor'})
+    ctx.guard(_C19.frame_obligations, ctx, py, "C14", {'inertial_sensor', 'util'})
 
 
 def _native_mask(py, mask, values=None):
